@@ -178,7 +178,7 @@ def body_freshness(t: int, m: int, T: int, present: bool, writable: bool) -> boo
         nodes[cachesel] = mv.File(b"PICKLE", mtime=m)
     vfs = mv.MemVFS(cfg, nodes, writable=writable)
     ps = dl.PickleStub()
-    ps.store[cachesel] = []
+    ps.store[cachesel] = [[]]  # one pickled object: an empty listing
     dl.install_dir_env(vfs, t, ps)
     try:
         proto = hx.ns(server=hx.make_server(cfg), requesthandler=hx.make_rh(False), config=cfg)
